@@ -25,6 +25,8 @@ def main():
     except ModuleNotFoundError as e:
         print(f"no check for {a.prop}: {e}", file=sys.stderr)
         return 2
+    import warnings
+    warnings.simplefilter("ignore")
     real_stdout = sys.stdout
     try:
         import abel
